@@ -14,6 +14,7 @@
 import Verif.Lemmas.SkipBR
 import Verif.Lemmas.ReaderSteady
 import Verif.Lemmas.ReaderAlloc
+import Verif.Lemmas.ReaderChunks
 namespace Verif
 
 /-- 2^40 (was 2^60): sizes for which allocation can succeed — mcache has 46 size classes, a capacity
@@ -45,15 +46,32 @@ theorem advance_remaining (r : Rd) (k : Nat) (hk : k ≤ r.buf.length - r.ri) :
   simp only []
   rw [List.drop_append_of_le_length (by simp only [List.length_drop]; omega), List.drop_drop]
 
-theorem acq_facts {live : Prop} (r : Rd) (k m : Nat) (r1 : Rd) (hp : RdP live r) (hk : k ≤ bigReq)
+/-- what the instance needs of a live-source predicate `L` (C04 exports these for `Rd.Live` and for
+    the more general `Rd.Live2`): whatever fits is served, `acquire` and cursor moves keep it -/
+structure LiveLike (L : Rd → Prop) : Prop where
+  serve : ∀ r n, L r → n ≤ r.remaining.length → r.canServe n = true
+  keeps : ∀ r n m r', Inv r → r.Small n → L r → r.acquire n = some (m, r') → L r'
+  advance : ∀ r k, L r → L ({ r with ri := r.ri + k } : Rd)
+
+theorem liveLike_live : LiveLike Rd.Live :=
+  ⟨live_canServe, acquire_keeps_live, fun _ _ h => h.frame rfl rfl⟩
+
+theorem liveLike_live2 : LiveLike Rd.Live2 :=
+  ⟨live2_canServe, acquire_keeps_live2, fun _ k h => h.advance k⟩
+
+/-- `RdOK`, plus `L` when `live` -/
+def RdPL (L : Rd → Prop) (live : Prop) (r : Rd) : Prop := RdOK r ∧ (live → L r)
+
+theorem acq_facts {L : Rd → Prop} (hL : LiveLike L) {live : Prop} (r : Rd) (k m : Nat) (r1 : Rd)
+    (hp : RdPL L live r) (hk : k ≤ bigReq)
     (hacq : r.acquire k = some (m, r1)) (ha : AcqPost r k m r1) :
-    r1.remaining = r.remaining ∧ r1.ri = r.ri ∧ (live → r1.Live) ∧
+    r1.remaining = r.remaining ∧ r1.ri = r.ri ∧ (live → L r1) ∧
     (k > m → (∃ e, r1.err = some e) ∧ (live → r.remaining.length < k)) ∧
     (¬ k > m → k ≤ r1.buf.length - r1.ri ∧ k ≤ r.remaining.length) := by
   obtain ⟨⟨hinv, hsz⟩, hlive⟩ := hp
   have hs : r.Small k := RdOK.small ⟨hinv, hsz⟩ k hk
   have hrem := ha.remaining hinv.ri_le
-  refine ⟨hrem, ha.ri, fun l => acquire_keeps_live r k m r1 hinv hs (hlive l) hacq, ?_, ?_⟩
+  refine ⟨hrem, ha.ri, fun l => hL.keeps r k m r1 hinv hs (hlive l) hacq, ?_, ?_⟩
   · intro hgt
     have he := (ha.short hgt).1
     refine ⟨?_, fun l => ?_⟩
@@ -62,7 +80,7 @@ theorem acq_facts {live : Prop} (r : Rd) (k m : Nat) (r1 : Rd) (hp : RdP live r)
       | some e => exact ⟨e, rfl⟩
     · have hl := acquire_live r k m r1 hinv hs hacq
       by_cases hfit : k ≤ r.remaining.length
-      · have := hl.mpr (live_canServe r k (hlive l) hfit); omega
+      · have := hl.mpr (hL.serve r k (hlive l) hfit); omega
       · omega
   · intro hge
     have h1 := ha.enough hge
@@ -71,19 +89,19 @@ theorem acq_facts {live : Prop} (r : Rd) (k m : Nat) (r1 : Rd) (hp : RdP live r)
 
 /-- THE INSTANCE: C04's reader satisfies the skippers' reader contract, for any source
     (`live := False`) and exactly (`live := True`) over live sources -/
-theorem rdc_inst (live : Prop) : RdC (RdP live) live bigReq := by
+theorem rdc_instL {L : Rd → Prop} (hL : LiveLike L) (live : Prop) : RdC (RdPL L live) live bigReq := by
   refine ⟨?_, ?_, ?_⟩
   · intro r n hp h0 hb
     have hs := hp.1.small n.toNat hb
     rcases next_cases r n hp.1.1 hs with ⟨hneg, _⟩ | ⟨_, m, r1, hacq, ha, hc⟩
     · omega
-    · obtain ⟨hrem, hri, hl1, hfail, hok⟩ := acq_facts r n.toNat m r1 hp hb hacq ha
+    · obtain ⟨hrem, hri, hl1, hfail, hok⟩ := acq_facts hL r n.toNat m r1 hp hb hacq ha
       rcases hc with ⟨hgt, he⟩ | ⟨hge, he⟩
       · obtain ⟨⟨e, hee⟩, hl⟩ := hfail hgt
         right; exact ⟨e, r1, by rw [he, hee], hl⟩
       · obtain ⟨hk, hk2⟩ := hok hge
         left
-        refine ⟨_, ?_, hk2, ?_, ?_, ⟨inv_advance r1 _ ha.inv hk, ?_⟩, fun l => (hl1 l).frame rfl rfl⟩
+        refine ⟨_, ?_, hk2, ?_, ?_, ⟨inv_advance r1 _ ha.inv hk, ?_⟩, fun l => hL.advance r1 _ (hl1 l)⟩
         · rw [he, take_eq_remaining_take r1 _ hk, hrem]
         · rw [advance_remaining r1 _ hk, hrem]
         · simp only []; omega
@@ -94,13 +112,13 @@ theorem rdc_inst (live : Prop) : RdC (RdP live) live bigReq := by
     have hs := hp.1.small n.toNat hb
     rcases skip_cases r n hp.1.1 hs with ⟨hneg, _⟩ | ⟨_, m, r1, hacq, ha, hc⟩
     · omega
-    · obtain ⟨hrem, hri, hl1, hfail, hok⟩ := acq_facts r n.toNat m r1 hp hb hacq ha
+    · obtain ⟨hrem, hri, hl1, hfail, hok⟩ := acq_facts hL r n.toNat m r1 hp hb hacq ha
       rcases hc with ⟨hgt, he⟩ | ⟨hge, he⟩
       · obtain ⟨⟨e, hee⟩, hl⟩ := hfail hgt
         right; exact ⟨e, r1, by rw [he, hee], hl⟩
       · obtain ⟨hk, hk2⟩ := hok hge
         left
-        refine ⟨[], _, he, hk2, ?_, ?_, ⟨inv_advance r1 _ ha.inv hk, ?_⟩, fun l => (hl1 l).frame rfl rfl⟩
+        refine ⟨[], _, he, hk2, ?_, ?_, ⟨inv_advance r1 _ ha.inv hk, ?_⟩, fun l => hL.advance r1 _ (hl1 l)⟩
         · rw [advance_remaining r1 _ hk, hrem]
         · simp only []; omega
         · rw [advance_remaining r1 _ hk, hrem]
@@ -110,7 +128,7 @@ theorem rdc_inst (live : Prop) : RdC (RdP live) live bigReq := by
     have hs := hp.1.small n.toNat hb
     rcases peek_cases r n hp.1.1 hs with ⟨hneg, _⟩ | ⟨_, m, r1, hacq, ha, hc⟩
     · omega
-    · obtain ⟨hrem, hri, hl1, hfail, hok⟩ := acq_facts r n.toNat m r1 hp hb hacq ha
+    · obtain ⟨hrem, hri, hl1, hfail, hok⟩ := acq_facts hL r n.toNat m r1 hp hb hacq ha
       rcases hc with ⟨hgt, he⟩ | ⟨hge, he⟩
       · obtain ⟨⟨e, hee⟩, hl⟩ := hfail hgt
         right; exact ⟨e, r1, by rw [he, hee], hl⟩
@@ -119,6 +137,12 @@ theorem rdc_inst (live : Prop) : RdC (RdP live) live bigReq := by
         refine ⟨r1, ?_, hk2, hrem, hri, ⟨ha.inv, ?_⟩, hl1⟩
         · rw [he, take_eq_remaining_take r1 _ hk, hrem]
         · rw [hrem, hri]; exact hp.1.2
+
+theorem rdc_inst (live : Prop) : RdC (RdP live) live bigReq := rdc_instL liveLike_live live
+
+/-- the same over C04's generalised live sources (`Rd.Live2`: `Live`, or a chunked script — chunks of
+    any size, an error only on the last one — over a stream that fits the reader's first buffer) -/
+theorem rdc_inst2 : RdC (RdPL Rd.Live2 True) True bigReq := rdc_instL liveLike_live2 True
 
 /-! ## BufferReader.Skip on C04's reader -/
 
@@ -131,6 +155,17 @@ theorem skipBR_live (r : Rd) (t : UInt8) (h : RdOK r) (hl : r.Live) :
         r'.readLen = r.readLen + n ∧ RdOK r' ∧ r'.Live
     | none => ∃ e, skipBR t r = .err e := by
   have hm := skipBRAt_m (rdc_inst True) (by decide) Facts.defaultRecursionDepth t r ⟨h, fun _ => hl⟩
+  rcases hm with ⟨e, hx, hnone⟩ | ⟨k, a, r', ho, hx, hrem, hri, hp'⟩
+  · rw [hnone trivial]; exact ⟨e, hx⟩
+  · rw [ho]; exact ⟨r', hx, hrem, hri, hp'.1, hp'.2 trivial⟩
+
+/-- exactness over C04's generalised live sources (`Rd.Live2`) -/
+theorem skipBR_live2 (r : Rd) (t : UInt8) (h : RdOK r) (hl : r.Live2) :
+    match refBR Facts.defaultRecursionDepth t r.remaining with
+    | some n => ∃ r', skipBR t r = .ok ((), r') ∧ r'.remaining = r.remaining.drop n ∧
+        r'.readLen = r.readLen + n ∧ RdOK r' ∧ r'.Live2
+    | none => ∃ e, skipBR t r = .err e := by
+  have hm := skipBRAt_m rdc_inst2 (by decide) Facts.defaultRecursionDepth t r ⟨h, fun _ => hl⟩
   rcases hm with ⟨e, hx, hnone⟩ | ⟨k, a, r', ho, hx, hrem, hri, hp'⟩
   · rw [hnone trivial]; exact ⟨e, hx⟩
   · rw [ho]; exact ⟨r', hx, hrem, hri, hp'.1, hp'.2 trivial⟩
